@@ -113,12 +113,19 @@ def run_instance(prop, name, P, tier, seed, budget):
     # --- known findings: confirm concretely, then exclude their regions
     regions = []
     for e in load_known(prop):
-        if e.get("status") != "known" or e.get("lemma") != key:
+        if e.get("status") != "known":
             continue
-        fails, detail = _concrete_fails(harness, e["witness"])
-        rec = {"id": e.get("id"), "what": e["what"], "still_fails": bool(fails), "detail": detail}
-        out["known_findings"].append(rec)
-        if fails:
+        if not (e.get("lemma") == key or ("lemma_prefix" in e and key.startswith(e["lemma_prefix"]))):
+            continue
+        ws = e.get("witnesses") or [e["witness"]]
+        outcomes = [_concrete_fails(harness, w) for w in ws]
+        failing = [w for w, (f, _d) in zip(ws, outcomes) if f]
+        applicable = [o for o in outcomes if o[0] is not None]   # witnesses this instance's assumptions admit
+        rec = {"id": e.get("id"), "what": e["what"], "still_fails": bool(failing), "failing_witnesses": failing[:3],
+               "applicable_witnesses": len(applicable)}
+        if applicable:
+            out["known_findings"].append(rec)
+        if failing:
             regions.append(e["region"])
     if regions:
         base = harness
@@ -137,7 +144,7 @@ def run_instance(prop, name, P, tier, seed, budget):
                                   "timed_out", "cex", "exc", "witnesses", "functions", "solver_queries", "solver_s",
                                   "unknown_reasons")})
     out["stubs"] = list(stubs.STUBS_IN_FORCE)
-    out["plugin_stats"] = {"bitops": dict(stubs.bitops.STATS), "arith": dict(stubs.arith.STATS), "fmtint": dict(stubs.fmtint.STATS)}
+    out["plugin_stats"] = {"bitops": dict(stubs.bitops.STATS), "arith": dict(stubs.arith.STATS), "fmtint": dict(stubs.fmtint.STATS), "fpexact": dict(stubs.fpexact.STATS)}
     out["excluded_regions"] = regions
     # --- verdict
     if res.refuted:
